@@ -232,6 +232,7 @@ CTX_SINK = {"sorted": {"sorted"}, "member": {"member"}, "eq": {"member"}, "size"
             "state:cache": set(), "state:mutate": set(), "state:global": set(),
             # scheduling / time / chance: an import observes nothing by itself ("none"); a call needs a row whose
             # sink says what its order reaches — none exists in /repo, so any such site fails closed
+            "fs:meta": set(),   # no admissible row: the generator has no business with file metadata
             "nondet:import": {"none"}, "nondet:call": {"none", "sorted", "member"},
             # file-system access: inputs are read, the target is written, its existence is tested once; a row that
             # READS the target ("read-target") is not admissible
@@ -1036,6 +1037,7 @@ def k3(ctx, scratch):
                                     "fresh process", "pooled worker", firsts[c.sid], base, scratch)
         k3_same_process(ctx, cases, scratch, results)
         k3_cross_project(ctx, scratch)
+        k3_changing_inputs(ctx, scratch)
         k3_schema(ctx, cases, scratch, seeds)
         if cases:
             c = cases[0]
@@ -1295,6 +1297,116 @@ def k3_cross_project(ctx, scratch):
                                        for n in differing[:3])})
             else:
                 run.nontrivial_case(("cross-project", label, i))
+
+
+def k3_changing_inputs(ctx, scratch):
+    """Histories in which the INPUTS change between generations into ONE target package (each generation in an
+    interpreter of its own, like the CLI): operations added / removed / edited with the schema file untouched,
+    include_all_* / convert_to_snake_case flipped, plugins switched on and off, the schema file's mtime pushed into
+    the past or the future without changing its content.  After every step the files of the package must be, byte
+    for byte, those of a FRESH generation of that step's inputs (files of earlier steps that the step does not
+    produce may stay: regenerate_keeps_other_files).  Inputs are written by the harness and only when their content
+    changes, so an untouched schema file keeps its old mtime — what a generator that trusted mtimes would look at."""
+    run = ctx.run
+    A = c10_gen.make(1500 + ctx.seed * 10007)
+    doc = parse(A.queries)
+    ops = [print_ast(d) for d in doc.definitions if d.kind == "operation_definition"]
+    frs = [print_ast(d) for d in doc.definitions if d.kind == "fragment_definition"]
+
+    def queries(op_idx, edit=False):
+        chosen = [ops[i] for i in op_idx]
+        if edit:
+            chosen = [o.replace("kind\n", "", 1) if o.startswith("mutation") else o for o in chosen]
+        return "\n\n".join(chosen + frs) + "\n"
+
+    base_cfg = {k: v for k, v in A.config.items()}
+    pruned = {"include_all_inputs": False, "include_all_enums": False}
+    full = {"include_all_inputs": True, "include_all_enums": True}
+    plug = {"plugins": [PLUGINS["shorter"], PLUGINS["extract"]]}
+    allops = list(range(len(ops)))
+    few = [i for i, o in enumerate(ops) if "$" not in o.split("{")[0]][:2] or [0]     # operations without variables
+    S = {   # step name -> (queries text, config overrides, schema mtime shift in seconds or None)
+        "few-ops pruned": (queries(few), pruned, None),
+        "all-ops pruned": (queries(allops), pruned, None),
+        "one-op pruned": (queries(few[:1]), pruned, None),
+        "all-ops edited pruned": (queries(allops, edit=True), pruned, None),
+        "all-ops full": (queries(allops), full, None),
+        "all-ops pruned camel": (queries(allops), {**pruned, "convert_to_snake_case": not base_cfg.get("convert_to_snake_case", True)}, None),
+        "all-ops pruned plugins": (queries(allops), {**pruned, **plug}, None),
+        "few-ops pruned, schema mtime -1 day": (queries(few), pruned, -86400),
+        "all-ops pruned, schema mtime +1 day": (queries(allops), pruned, 86400),
+    }
+    histories = [
+        ["few-ops pruned", "all-ops pruned", "one-op pruned", "all-ops edited pruned"],
+        ["all-ops full", "few-ops pruned", "all-ops pruned camel", "all-ops pruned plugins", "all-ops pruned"],
+        ["all-ops pruned, schema mtime +1 day", "few-ops pruned", "few-ops pruned, schema mtime -1 day", "all-ops pruned"],
+    ]
+    if ctx.thorough:
+        names = sorted(S)
+        for i in range(6):
+            r = random.Random(77 + i + ctx.seed)
+            histories.append([r.choice(names) for _ in range(5)])
+
+    def put(d, step):
+        q, over, shift = S[step]
+        for name, text in [("schema.graphql", A.sdl), ("queries.graphql", q)] + sorted(A.files.items()):
+            pth = os.path.join(d, name)
+            if not (os.path.exists(pth) and open(pth).read() == text):
+                with open(pth, "w") as fh:
+                    fh.write(text)
+        if shift is not None:
+            import time as _t
+
+            t0 = _t.time() + shift
+            os.utime(os.path.join(d, "schema.graphql"), (t0, t0))
+        cfg = {**base_cfg, **over, "schema_path": "schema.graphql", "queries_path": "queries.graphql"}
+        return {"dir": d, "schema": None, "queries": None, "config": cfg, "files": {}}
+
+    fresh = {}
+
+    def do_fresh(step):
+        req = put(scratch.new("hf"), step)
+        res = run_isolated(req, 0)
+        fresh[step] = (read_tree(target_of(req, res)) if res.get("ok") else None, res)
+    with ThreadPoolExecutor(max_workers=8) as ex:
+        list(ex.map(do_fresh, sorted(S)))
+    for step, (files, res) in fresh.items():
+        if files is None:
+            run.broken("K3 changing inputs", f"fresh generation of step {step!r} failed: {res.get('exc')}")
+
+    def do_history(h):
+        d = scratch.new("hh")
+        out = []
+        for step in h:
+            req = put(d, step)
+            res = run_isolated(req, 0)
+            out.append((step, read_tree(target_of(req, res)) if res.get("ok") else None, res))
+        return out
+    with ThreadPoolExecutor(max_workers=8) as ex:
+        outs = list(ex.map(do_history, histories))
+    for h, out in zip(histories, outs):
+        for i, (step, files, res) in enumerate(out):
+            run.count()
+            run.dist("comparisons", "inputs changed between generations into one target")
+            want = fresh[step][0]
+            if want is None:
+                continue
+            label = " -> ".join(h[: i + 1])
+            if files is None:
+                run.violation(f"step {i + 1} of the history [{label}] fails in the existing target ({res.get('exc')}) but succeeds in a fresh one",
+                              {"history": h[: i + 1], "exc": res.get("exc"), "tb": res.get("tb")})
+                continue
+            differing = [n for n in sorted(want) if files.get(n) != want[n]]
+            if differing:
+                q, over, shift = S[step]
+                run.violation(
+                    f"after the history [{label}] into one target, {differing[:6]} differ from a fresh generation of the last step's inputs",
+                    {"history": h[: i + 1], "differing_files": differing, "schema": A.sdl, "queries_of_last_step": q,
+                     "config_of_last_step": {**base_cfg, **over}, "schema_mtime_shift_s": shift,
+                     "previous_steps": [{"step": s2, "config": S[s2][1], "schema_mtime_shift_s": S[s2][2]} for s2 in h[:i]],
+                     "diff": "\n".join(udiff(want[n], files.get(n, b""), n, "fresh generation", f"after {i} earlier generation(s)") for n in differing[:3])})
+                break
+            run.nontrivial_case(("changing-inputs", label))
 
 
 def k3_schema(ctx, cases, scratch, seeds):
